@@ -18,6 +18,7 @@ def run(ctx: Ctx, chk) -> None:
     chk.assume("A1", "A3")
     chk.run_rule(park1, ctx)
     chk.run_rule(wake1, ctx)
+    chk.run_rule(sleep_mark, ctx)
     chk.run_rule(flush_node, ctx)
     chk.run_rule(flush_once, ctx)
     chk.run_rule(keep1, ctx)
@@ -208,6 +209,8 @@ def wake1(ctx: Ctx, chk) -> None:
                 g = CFG(f.node)
                 cn = Canon(I, f)
                 sets = [x for x in g.nodes if x.kind == "stmt" and isinstance(x.ast, ast.Assign) and any(isinstance(t, ast.Attribute) and t.attr == "sleeping" and cn.canon(t.value) == "gateway.nodes[In.node_id]" for t in x.ast.targets) and isinstance(x.ast.value, ast.Constant) and x.ast.value.value is True]
+                via_setter = [m_ for m_ in _marks_sleeping(ctx, f) if not any(isinstance(t, ast.Attribute) and t.attr == "sleeping" for t in (m_.targets if isinstance(m_, ast.Assign) else [m_.target]))]
+                sets += [x for x in g.nodes if x.kind == "stmt" and any(x.ast is m_ for m_ in via_setter)]  # a Node property whose setter sets the mark
                 cnodes = g.nodes_where(lambda x: x.contains(calls[0]))
                 where = ctx.loc(f, calls[0])
                 if sets and cnodes and all(any(g.dominates(s, c) for s in sets) for c in cnodes):
@@ -326,3 +329,69 @@ def flush_once(ctx: Ctx, chk) -> None:
         else:
             chk.refute(rule, f"{f.fq}::removal", "the flush does not remove the entries it writes: every later wake writes the same commands again", ctx.loc(f, fl.loop))
     sb.none_propagation(ctx, chk, rule)
+
+
+def _marks_sleeping(ctx: Ctx, f) -> list:
+    """Statements of f that set a node's sleeping mark to something that can be true: a store into `.sleeping`, or a
+    store into an attribute of Node / Child that is a property whose setter does that."""
+    out = []
+    node_cls = ctx.cls("aiomysensors.model.node.Node")
+    setters = {}
+    for c in node_cls.repo_mro():
+        for name, fl in c.methods.items():
+            for m in fl:
+                if m.is_setter():
+                    setters.setdefault(name, m)
+    for n in ctx.own_nodes(f):
+        if not isinstance(n, (ast.Assign, ast.AnnAssign, ast.AugAssign)):
+            continue
+        tg = n.targets if isinstance(n, ast.Assign) else [n.target]
+        for t in tg:
+            for x in ([t] if not isinstance(t, (ast.Tuple, ast.List)) else t.elts):
+                if not isinstance(x, ast.Attribute):
+                    continue
+                if x.attr == "sleeping":
+                    v = getattr(n, "value", None)
+                    if not (isinstance(v, ast.Constant) and v.value in (False, None, 0)):
+                        out.append(n)
+                elif x.attr in setters and f is not setters[x.attr] and (ctx.prog.type_of(f.module, x.value) or "").split(" | ")[0].endswith("node.Node"):
+                    if _marks_sleeping(ctx, setters[x.attr]):
+                        out.append(n)
+    return out
+
+
+def sleep_mark(ctx: Ctx, chk) -> None:
+    rule = "SLEEP-MARK"
+    chk.rule(rule, "a node is marked as sleeping only by its wake announcement (heartbeat response in 2.0/2.1, pre-sleep notification in 2.2): no other received message - in particular not the heartbeat response under 2.2, which always-on nodes answer too - sets the mark (directly, in a helper, or through a property setter of Node); otherwise set commands for a node that never announces a wake are parked for ever instead of being written immediately")
+    I = ctx.I
+    flush_fqs = {f.fq for f in sb.flush_functions(ctx)}
+    cells = tables.handler_cells(ctx)
+    n = 0
+    for V in ctx.versions:
+        wake = {("internal", WAKE[V][1])} if V in WAKE else set()
+        for cell, cal in cells[V].items():
+            if cal is None or cell in wake or cell in (("cmd", "internal"), ("cmd", "stream")):
+                continue
+            n += 1
+            chk.instance(rule)
+            bad = None
+            for f in tables.chain_and_helpers(ctx, cal, V):
+                fi = ctx.inl(f, lambda h: not h.name.startswith("handle_") and h.fq not in flush_fqs)  # helpers written out, flag parameters specialised
+                marks = _marks_sleeping(ctx, fi)
+                if marks and f.fq not in flush_fqs:
+                    # a helper method shared with a wake handler is judged where it is written out, not on its own
+                    if f is not cal.chain()[-1].func and f.name.startswith("_") and any(f.qualname in getattr(ctx.inl(g_, lambda h: not h.name.startswith("handle_") and h.fq not in flush_fqs), "inlined", []) for g_ in tables.chain_defs(ctx, cal, V)):
+                        continue
+                    bad = (f, marks[0])
+                    break
+            key = f"{_cell_text(cell)}@{V}"
+            if bad is None:
+                chk.ok(rule, key, "does not set the sleeping mark", cal.chain()[-1].func.where, sample=n <= 2)
+            else:
+                f, st = bad
+                chk.refute(rule, f"{cal.chain()[-1].func.fq}::marks-sleeping::{V}", f"under protocol {V} the handler of {_cell_text(cell)} marks the node as sleeping (`{norm(st)[:60]}` in {f.qualname}) although that message is not the wake announcement of this protocol: a node that sends it without ever announcing a wake (an always-on node answering heartbeat requests) has its set commands parked and never written", ctx.loc(f, st), version=V)
+    chk.floor(rule, "non-wake handler cells examined", n, 50)
+
+
+def _cell_text(cell) -> str:
+    return f"{cell[0]} {cell[1]}"
